@@ -388,6 +388,25 @@ def check(col, prog, tier, profile, fixture=None):
                     differs = truth if str(t[1]).endswith("::ne") else not truth
                     if differs and any(s[0] == "call" and str(s[1]).endswith("Rem::rem") for s in subterms(t)):
                         base = True
+            # ... or the degenerate equation 0*x + 0*y = c with c != 0, which has no solution: a == 0, b == 0 and c != 0 are
+            # all facts of the path
+            def _zero_truth(f_, k_):
+                t_ = f_[1]
+                if not (isinstance(t_, tuple) and t_ and t_[0] == "call" and str(t_[1]).endswith(("PartialEq::ne", "PartialEq::eq")) and f_[0] in ("eq", "ne") and f_[2] in (0, 1)):
+                    return None
+                as_ = [x_[1][1] if (isinstance(x_, tuple) and x_ and x_[0] == "ref" and x_[1][0] == "constval") else (x_[1][1] if (isinstance(x_, tuple) and x_ and x_[0] == "ref" and x_[1][0] == "deref") else x_) for x_ in t_[2] if not (isinstance(x_, tuple) and x_ and x_[0] == "mem")]
+                if len(as_) != 2:
+                    return None
+                pk_ = ("param", k_, I.names.get(k_))
+                if not (pk_ in as_ and any(isinstance(x_, tuple) and x_ and x_[0] == "assoc" and "ZERO" in tstr(x_) for x_ in as_)):
+                    return None
+                truth_ = (f_[0] == "eq") == bool(f_[2])
+                return truth_ if str(t_[1]).endswith("::eq") else not truth_
+            zt_ = {k_: [v_ for v_ in (_zero_truth(f_, k_) for f_ in st.facts) if v_ is not None] for k_ in (1, 2, 3)}
+            degenerate = zt_[1] == [True] * len(zt_[1]) and zt_[1] and zt_[2] and all(zt_[2]) and zt_[3] and not any(zt_[3])
+            if degenerate and not prop and not base:
+                col.ok("Q1", egcd.loc(), "%s|none-degenerate" % fk(egcd), "None for a == 0, b == 0, c != 0 (no solution exists)", nontrivial=False)
+                continue
             key = "%s|none-%s" % (fk(egcd), "propagated" if prop else "base-test")
             if prop or base:
                 col.ok("Q1", egcd.loc(), key, "None only from %s" % ("`?` on the recursive call" if prop else "the failed divisibility test c % b != 0"))
